@@ -81,6 +81,8 @@ pub enum Outcome {
     Fail(ConnErr),
     /// never completes
     Never,
+    /// completes with the inner outcome after this many (virtual or real) milliseconds
+    Delayed(u64, Box<Outcome>),
 }
 
 #[derive(Clone, Debug)]
@@ -99,6 +101,8 @@ pub struct RecFwd {
     pub check_auth_err: Option<ConnErr>,
     /// bytes received by connected peers, per connect (in order of connects)
     pub received: Mutex<Vec<Arc<Mutex<Vec<u8>>>>>,
+    /// connect futures that were dropped before completing (abandoned attempts)
+    pub abandoned: Arc<AtomicU64>,
 }
 
 impl RecFwd {
@@ -110,6 +114,7 @@ impl RecFwd {
             icmp: MuxChoice::NotConfigured,
             check_auth_err: None,
             received: Default::default(),
+            abandoned: Default::default(),
         })
     }
 
@@ -207,7 +212,16 @@ impl VForwarder for RecFwd {
     async fn connect(&self, meta: ConnMeta) -> Result<(Box<dyn VSource>, Box<dyn VSink>), ConnErr> {
         self.log.lock().unwrap().push(FwdEvent::Connect(meta.clone()));
         let seen: Arc<Mutex<Vec<u8>>> = Default::default();
-        match (self.decide)(&meta) {
+        struct Abandon(Arc<AtomicU64>, bool);
+        impl Drop for Abandon { fn drop(&mut self) { if !self.1 { self.0.fetch_add(1, Ordering::SeqCst); } } }
+        let mut guard = Abandon(self.abandoned.clone(), false);
+        let mut outcome = (self.decide)(&meta);
+        while let Outcome::Delayed(ms, inner) = outcome {
+            tokio::time::sleep(Duration::from_millis(ms)).await;
+            outcome = *inner;
+        }
+        if !matches!(outcome, Outcome::Never) { guard.1 = true; }
+        match outcome {
             Outcome::Echo => {
                 let (tx, rx) = tokio::sync::mpsc::unbounded_channel();
                 self.received.lock().unwrap().push(seen.clone());
@@ -222,7 +236,8 @@ impl VForwarder for RecFwd {
                 Ok((Box::new(SilentSource), Box::new(ChanSink { tx: None, seen })))
             }
             Outcome::Fail(e) => Err(e),
-            Outcome::Never => futures::future::pending().await,
+            Outcome::Never => { let _g = guard; futures::future::pending().await }
+            Outcome::Delayed(..) => unreachable!(),
         }
     }
 
